@@ -366,10 +366,17 @@ fn get_targets_root_only(
     let metadata = get_cargo_metadata(manifest_path)?;
     let workspace_root_path = PathBuf::from(&metadata.workspace_root).canonicalize()?;
     let (in_workspace_root, current_dir_manifest) = if let Some(target_manifest) = manifest_path {
-        (
-            workspace_root_path == target_manifest,
-            target_manifest.canonicalize()?,
-        )
+        let target_manifest = target_manifest.canonicalize()?;
+        // The manifest of a virtual workspace belongs to no package: as from the workspace's
+        // directory, its members are what is meant.
+        let is_virtual_root = target_manifest == workspace_root_path.join("Cargo.toml")
+            && !metadata.packages.iter().any(|p| {
+                PathBuf::from(&p.manifest_path)
+                    .canonicalize()
+                    .unwrap_or_default()
+                    == target_manifest
+            });
+        (is_virtual_root, target_manifest)
     } else {
         let current_dir = env::current_dir()?.canonicalize()?;
         // Like cargo, take the manifest of the nearest directory at or above the current one, so
